@@ -177,6 +177,10 @@ func Modify(node Node, f func(Node) (Node, bool)) (Node, bool) { //nolint:funlen
 		return f(newNode)
 	case *CallExpression:
 		newNode := *node
+		newNode.Function, cont = Modify(node.Function, f) // the callee can be any expression, e.g. a function literal.
+		if !cont {
+			return nil, false
+		}
 		newNode.Arguments = make([]Node, len(node.Arguments))
 		for i := range node.Arguments {
 			newNode.Arguments[i], cont = Modify(node.Arguments[i], f)
